@@ -2,6 +2,7 @@ import O4.Lemmas.ScrambleSuit
 import O4.Lemmas.ScrambleSuitPackets
 import O4.Generated.Facts.Scramblesuit
 import O4.Generated.Facts.Probdist
+import O4.Generated.Facts.Uniformdh
 /-!
 # C15 — ScrambleSuit client: handshake, stream and tickets work for every segmentation
 
@@ -729,6 +730,23 @@ theorem padding_sampler_reseed_under_mutex :
     O4.Facts.Probdist.WeightedDist_Reset_locked = true ∧
     O4.Facts.Probdist.WeightedDist_Reset_prelock = [] ∧
     O4.Facts.Probdist.WeightedDist_Sample_fields ⊆ O4.Facts.Probdist.WeightedDist_Reset_fields := by
+  decide
+
+
+/-- **structural fact, regenerated from the Go source on every run (go/ast)**: every package-level
+    variable (file-scope `var`) of the packages this property's mechanisms live in
+    (transports/scramblesuit, common/probdist, common/uniformdh) is one of the names below — error values, fixed byte strings,
+    flags and function hooks that the code only reads after initialisation.  The models treat all
+    other state as owned by one connection / one object; a NEW package-level variable (a cache, a
+    pool, a scratch buffer, a pre-keyed hash shared "to save allocations") is how such state comes
+    to be shared between connections and goroutines, which compiles, passes the tests and typically
+    needs true parallelism or a multi-connection history to misbehave.  Adding one breaks this
+    theorem; the concurrent / multi-connection families of the harness then search for the failing
+    schedule. -/
+theorem no_new_package_level_state :
+    O4.Facts.Scramblesuit.pkg_vars ⊆ ["ErrInvalidHandshake", "ErrInvalidPacket", "ErrNotSupported", "errInvalidTicket", "errMarkNotFoundYet", "zeroPadBytes"] ∧
+    O4.Facts.Probdist.pkg_vars ⊆ [] ∧
+    O4.Facts.Uniformdh.pkg_vars ⊆ ["gen", "modpGroup"] := by
   decide
 
 end C15
